@@ -126,6 +126,31 @@ def run(ctx):
             g_ok = gt is not None and gt[0] == "cmp" and gt[1] == "==" and strip(gt[2]) == ("attr", ("param", g.params[0]), field) and gt[3][0] == "enum" and gt[3][2] == member
         ctx.ob("C16.a", f"{AC}.{name}", g_ok, f"public `{name}` reads self.{field}" + (f" == {member}" if member else ""), func=f"{AC}.{name}", file=ac.module.rel,
                construct=f"{name} getter", fail=f"public `{name}` getter is `{show(gt)[:80] if gt else None}`")
+    # ---------------------------------------------------------------- C16.b the change set records *user* changes only
+    # Reported state is stored in the private backing attributes.  A store through a public setter inside the response handlers
+    # adds the id to the change set, so the next apply() writes back a value nobody asked for (and every refresh re-arms it).
+    from ..helpers import with_helpers
+    acls = prog.cls(AC)
+    for q in (f"{AC}._update_state", f"{AC}._update_capabilities"):
+        for f_ in with_helpers(prog, ctx.fn(q)):
+            if not f_.params:
+                continue
+            for n in ast.walk(f_.node):
+                tg = n.targets if isinstance(n, ast.Assign) else ([n.target] if isinstance(n, (ast.AugAssign, ast.AnnAssign)) else [])
+                for t in tg:
+                    for x in ast.walk(t):
+                        if isinstance(x, ast.Attribute) and isinstance(x.ctx, ast.Store) and isinstance(x.value, ast.Name) and x.value.id == f_.params[0]:
+                            ctx.count("response_stores")
+                            via_setter = x.attr in acls.props_set
+                            touches_set = x.attr == "_updated_properties"
+                            ctx.ob("C16.b", q, not via_setter and not touches_set, f"reported value is stored in the backing attribute self.{x.attr}", func=q,
+                                   file=f_.module.rel, node=n,
+                                   fail=f"the response handler assigns self.{x.attr} through the public setter / touches the change set: state reported by the device "
+                                        f"is recorded as a pending user change and written back by the next apply()")
+            for n in ast.walk(f_.node):
+                if isinstance(n, ast.Call) and isinstance(n.func, ast.Attribute) and n.func.attr in ("add", "update", "discard", "clear", "remove") \
+                        and is_self_attr(n.func.value, "_updated_properties"):
+                    ctx.ob("C16.b", q, False, "", func=q, file=f_.module.rel, node=n, fail="the response handler modifies the change set")
     # ---------------------------------------------------------------- C16.b apply
     ap = ctx.fn(f"{AC}.apply")
     aps = summarize(prog, ap)
